@@ -247,6 +247,10 @@ pub fn install_panic_hook() {
     }));
 }
 
+pub fn last_panic_text() -> String {
+    take_panic()
+}
+
 fn take_panic() -> String {
     LAST_PANIC
         .with(|p| p.borrow_mut().take())
